@@ -85,7 +85,7 @@ Proof. exact circle_zero_padding_refuted. Qed.
    Full statement (no oracle, no loss) is not provable: atan2/sin/cos/sqrt are outside the model. *)
 Theorem C27_fit_contains_oval_partial :
   forall c s cr sr w h px py, 0 <= w -> 0 <= h -> 0 <= px -> 0 <= py ->
-    H_unit_b c s = true ->
+    H_pad_b c s w h px py = true ->
     let WH := fit_oval c s w h px py in
     H_radius_b cr sr (fst WH) (snd WH) = true ->
     let b := inner_oval cr sr (fst WH) (snd WH) in
@@ -106,7 +106,7 @@ Proof. exact trace_rect_on_border. Qed.
 
 (* non-vacuity of the side conditions *)
 Example C27_oval_hyps_satisfiable :
-  H_unit_b (4#5) (3#5) = true /\
+  H_pad_b (4#5) (3#5) 100 50 0 0 = true /\
   H_radius_b (502046 # 10000) (251023 # 10000) (fst (fit_oval (4#5) (3#5) 100 50 0 0)) (snd (fit_oval (4#5) (3#5) 100 50 0 0)) = true.
 Proof. split; vm_compute; reflexivity. Qed.
 
